@@ -2,7 +2,7 @@
 import math
 import random
 
-from harness import core, tlc, engine_explainer as E, gen_explainer as G
+from harness import tlaps, core, tlc, engine_explainer as E, gen_explainer as G
 from checks import _explainer as X
 
 PID = "C01"
@@ -60,6 +60,11 @@ def run(tier, seed):
     rng = random.Random(seed)
     X.mc_stage(ctx, ["sage_a"] if quick else ["sage_a", "sage_b", "sage_c", "sage_d", "sage_e"],
                "Efficiency (all prefixes, all orders and row draws, after faults) + LockStep ChainEndsAtModelLoss")
+    # streams of ANY length: the algebraic core of the identity (telescoping chain + all trackers the same linear map) proved
+    # with TLAPS for d = 3 and arbitrary tracker coefficients; CommitIsLinear (a TLC action property of every MC_IncExplainer
+    # configuration above) shows that the commit step of the specification has the form the proof assumes
+    tlaps.prove(ctx, "EffProof", "Init /\\ [][Next]_vars => []Efficiency for d = 3, any linear tracker update, any order, any chain "
+                "of loss values, any number of explained observations")
     X.abs_stage(ctx, ["sage_q"] if quick else ["sage_q", "sage_a", "sage_w", "sage_p", "sage_d3", "sage_def"])
     X.refine_stage(ctx, ["sage_a"] if quick else ["sage_a", "sage_b", "sage_c", "sage_d", "sage_e"])
     X.replay_stage(ctx, ["sage_q"] if quick else ["sage_q", "sage_a", "sage_prod", "sage_d3"], wanted_replay,
